@@ -5,6 +5,8 @@ mod e1;
 mod e2;
 mod e2_arp;
 mod e2_link;
+mod e2_sock;
+mod e2_start;
 mod e2_udp;
 mod e3;
 mod sim;
